@@ -101,6 +101,7 @@ class ConfigImpl:
         self.path = []
         self.detail = None
         c = self.cfg0
+        self.floats = {"dt": self._ms(c["dt"]), "delay": self._ms(c["delay"]), "dur": self._ms(c["dur"])}
         self.obj = self._construct(self._ms(c["dt"]), self._ms(c["delay"]), c["batchsz"], c["inplace"],
                                    self._ms(c["dur"]), c["incl"], c["syn"], "f32")
         if self.kind == "reducer" and hdr.get("warm", True):
@@ -111,7 +112,24 @@ class ConfigImpl:
             self.obj(torch.zeros(2, 3))
 
     def _ms(self, ticks):
-        return float(ticks) * self.tick
+        # the float a user would write for that many ticks (0.7, 2.1, ...), not the product k * tick
+        return round(float(ticks) * self.tick, 6)
+
+    def nq_after(self, op):
+        """nq() as it will be once `op` has been applied."""
+        import math
+        f = dict(self.floats)
+        key = {"set_dt": "dt", "set_delay": "delay", "set_dur": "dur"}.get(op["a"])
+        if key:
+            f[key] = self._ms(op["v"])
+        return int(math.ceil((f["dur"] if self.kind == "reducer" else f["delay"]) / f["dt"]))
+
+    def nq(self):
+        """ceil(duration / dt) of the documented size formula, evaluated in IEEE arithmetic on the very
+        floats that were handed to the constructor / the setters (oracle input of the trace spec)."""
+        import math
+        f = self.floats
+        return int(math.ceil((f["dur"] if self.kind == "reducer" else f["delay"]) / f["dt"]))
 
     def _ticks(self, ms):
         v = float(ms) / self.tick
@@ -189,6 +207,8 @@ class ConfigImpl:
                 self.obj = o.to(DTYPES[v])
             else:
                 raise KeyError(a)
+            if a in ("set_dt", "set_delay", "set_dur"):
+                self.floats[{"set_dt": "dt", "set_delay": "delay", "set_dur": "dur"}[a]] = self._ms(v)
             self.path.append(dict(op))
             return {"t": "ok"}
         except Exception as e:
@@ -312,6 +332,14 @@ class ConfigImpl:
         self._clear(o)
         f = self._fresh()
         r = self.reported()
+        ho = self.obj if self.kind == "reducer" else (self._syn() if self.kind != "neuron" else None)
+        hf = f if self.kind == "reducer" else (self._syn(f) if self.kind != "neuron" else None)
+        if ho is not None:
+            so, sf = [x.recordsz for x in records_of(ho)], [x.recordsz for x in records_of(hf)]
+            if so != sf:
+                self.detail = {"step": -1, "field": "recordsz", "component": so, "fresh": sf,
+                               "reported": {kk: vv for kk, vv in r.items()}}
+                return {"t": "diff"}
         gen = torch.Generator().manual_seed(self.seed)
         fd = self._float_dtype()
         k = self.kind
